@@ -2,7 +2,9 @@
 Require Import Gengo.Base.Str Gengo.Base.StrOrder Gengo.Model.Exec Gengo.Proofs.ExecProofs.
 
 (* the hook trace of a target equals the documented protocol -- for each generator in order:
-   Filter on exactly the target-accepted types in canonical order, Namers, PackageVars,
+   Filter on exactly the target-accepted types in canonical order (each call being shown the
+   order its context holds: the whole canonical order for the target's filter, the
+   target-accepted order for a generator's), Namers, PackageVars,
    PackageConsts, Init, one GenerateType per type accepted by both filters, Finalize, Imports --
    whenever no generator fails ... *)
 Theorem C04_trace_is_protocol : forall itoa c t, tdir t <> [] ->
